@@ -207,6 +207,7 @@ class UdpLoop(VLoop):
         self.trace_digest = None   # optional hashlib object fed with every delivery (observation log)
         self._recent_deadlines = collections.deque()   # RPC deadlines of requests sent, ascending
         self.boundaries = 0        # iteration boundaries visited by run_until (the unit of every step horizon)
+        self.dup_on_send = None    # optional predicate(Dgram): the network duplicates these datagrams (scripted histories)
 
     # -- endpoint creation ---------------------------------------------------------------------------------------
     async def create_datagram_endpoint(self, protocol_factory, local_addr=None, remote_addr=None, **kw):
@@ -238,6 +239,8 @@ class UdpLoop(VLoop):
         self.stats['sent'] += 1
         if self.sent_log is not None:
             self.sent_log.append((d.n, self._vtime, src, d.dst, ptype))
+        if self.dup_on_send is not None and self.dup_on_send(d):
+            self.dup(len(self.inflight) - 1)
         return d
 
     def inject(self, k=0):
